@@ -38,13 +38,13 @@ func (e *Engine) forkAlts(st *State, x ssa.Value, alts []alt) bool {
 	}
 	for _, a := range rest {
 		c := st.clone()
-		c.pc = append(c.pc, a.cond)
+		c.addPC(a.cond)
 		if x != nil {
 			c.fr.env[x] = a.val
 		}
 		e.work = append(e.work, c)
 	}
-	st.pc = append(st.pc, chosen.cond)
+	st.addPC(chosen.cond)
 	if x != nil {
 		st.fr.env[x] = chosen.val
 	}
@@ -128,10 +128,10 @@ func (e *Engine) applyFixed(st *State, i int) {
 	} else {
 		c = e.ts.BVConst(n.T.sort.W, v)
 	}
-	st.pc = append(st.pc, e.ts.Eq(n.T, c))
+	st.addPC(e.ts.Eq(n.T, c))
 	if n.Kind == "bytes" {
 		for j, b := range e.Fixed[i].B {
-			st.pc = append(st.pc, e.ts.Eq(e.ts.App(BV(8), "select", n.Arr, e.ts.BVInt(64, int64(j))), e.ts.BVInt(8, int64(b))))
+			st.addPC(e.ts.Eq(e.ts.App(BV(8), "select", n.Arr, e.ts.BVInt(64, int64(j))), e.ts.BVInt(8, int64(b))))
 		}
 	}
 }
@@ -195,7 +195,7 @@ func (e *Engine) callFn(st *State, x *ssa.Call, fn *ssa.Function, bind []Value, 
 				e.applyFixed(st, len(st.nondets)-1)
 			}
 			// lengths are non-negative ints below 2^62
-			st.pc = append(st.pc, ts.App(BoolSort, "bvult", ln, ts.BVConst(64, new(big.Int).Lsh(big.NewInt(1), 62))))
+			st.addPC(ts.App(BoolSort, "bvult", ln, ts.BVConst(64, new(big.Int).Lsh(big.NewInt(1), 62))))
 			o := e.newObj(st, nil, &SymBytesV{Arr: arr, Len: ln})
 			set(&SliceV{Obj: o, Off: ts.BVInt(64, 0), Len: ln, Cap: ln})
 			return true
@@ -246,13 +246,22 @@ func (e *Engine) callFn(st *State, x *ssa.Call, fn *ssa.Function, bind []Value, 
 				e.sample(st, "assert \""+msg+"\" at "+where)
 			case "sat":
 				neg := st.clone()
-				neg.pc = append(neg.pc, ts.Not(c))
+				neg.addPC(ts.Not(c))
 				e.violation(neg, "ASSERT", msg+" at "+where)
 			default:
 				e.Unknown++
 				e.note("UNKNOWN solver result on assert %s: %s", where, r)
 			}
 			return e.assume(st, c)
+		case "vpOr":
+			set(ts.Or(args[0].(*Term), args[1].(*Term)))
+			return true
+		case "vpAnd":
+			set(ts.And(args[0].(*Term), args[1].(*Term)))
+			return true
+		case "vpImplies":
+			set(ts.Or(ts.Not(args[0].(*Term)), args[1].(*Term)))
+			return true
 		case "vpThorough":
 			set(ts.Bool(e.tierThorough))
 			return true
@@ -343,8 +352,9 @@ func (e *Engine) forkRange(st *State, x *ssa.Call, v *Term, n int, mk func(s *St
 	ts := e.ts
 	first := -1
 	var rest []int
+	fresh := v.op == "var" && v.minVar > st.pcMaxVar
 	for i := 0; i < n; i++ {
-		if e.check(st.pc, ts.Eq(v, ts.BVInt(64, int64(i)))) == "sat" {
+		if fresh || e.check(st.pc, ts.Eq(v, ts.BVInt(64, int64(i)))) == "sat" {
 			if first < 0 {
 				first = i
 			} else {
@@ -357,14 +367,14 @@ func (e *Engine) forkRange(st *State, x *ssa.Call, v *Term, n int, mk func(s *St
 	}
 	for _, i := range rest {
 		c := st.clone()
-		c.pc = append(c.pc, ts.Eq(v, ts.BVInt(64, int64(i))))
+		c.addPC(ts.Eq(v, ts.BVInt(64, int64(i))))
 		val := mk(c, i)
 		if x != nil {
 			c.fr.env[x] = val
 		}
 		e.work = append(e.work, c)
 	}
-	st.pc = append(st.pc, ts.Eq(v, ts.BVInt(64, int64(first))))
+	st.addPC(ts.Eq(v, ts.BVInt(64, int64(first))))
 	val := mk(st, first)
 	if x != nil {
 		st.fr.env[x] = val
